@@ -181,7 +181,7 @@ def chain_triggers(prog, chk, rid, table='PlaylistEntity', col='nextentityid', e
                           'listing' % (en, event, table, col))
 
 
-def chain_trigger_siblings(prog, chk, rid, tables=('playlist', 'playlistentity')):
+def chain_trigger_siblings(prog, chk, rid, tables=('playlist', 'playlistentity'), views=()):
     """The per-version copies of a chain-maintaining trigger are siblings: all supported 2.x
     creators must issue the same normalised definition for a trigger of the same name (the
     reference dumps of these versions agree on them; a copy that differs was edited alone)."""
@@ -199,11 +199,16 @@ def chain_trigger_siblings(prog, chk, rid, tables=('playlist', 'playlistentity')
             if (t.table or '').lower() in tables:
                 raw = cats[en]['main'].raw.get(('trigger', n))
                 by[n][en] = ' '.join(str(x) for x in sqlmod.norm_tokens(raw.toks)) if raw is not None else str(t.norm)
+        for n, v in cats[en]['main'].views.items():
+            if n in views:
+                raw = cats[en]['main'].raw.get(('view', n))
+                if raw is not None:
+                    by['view ' + n][en] = ' '.join(str(x) for x in sqlmod.norm_tokens(raw.toks))
     for n, d in sorted(by.items()):
         cnt = collections.Counter(d.values())
         major, _ = cnt.most_common(1)[0]
         odd = sorted(en for en, v in d.items() if v != major)
-        inst = 'trigger %s: %d version copies' % (n, len(d))
+        inst = '%s: %d version copies' % (n if n.startswith('view ') else 'trigger ' + n, len(d))
         if not odd:
             chk.ok(rid, inst + ' identical', n)
         else:
